@@ -122,12 +122,15 @@ Init == /\ F \in FSet
         /\ ns = -1 /\ rlf = -1 /\ ftsq = -1 /\ ftsw = TRUE /\ cbytes = -1
 
 \* Reader(file, open=False) while the file is still being written
-Construct == /\ pc = "writing" /\ kind = "offline" /\ cbytes = -1 /\ bytes >= 1
+\* (explored at frame boundaries and one byte on either side of them: the code only ever looks at the size through
+\*  `size = ns * F` and `size div F`)
+NearFrame(b) == b % F \in {0, 1, F - 1}
+Construct == /\ pc = "writing" /\ kind = "offline" /\ cbytes = -1 /\ bytes >= 1 /\ NearFrame(bytes)
              /\ cbytes' = bytes
              /\ UNCHANGED <<F, bytes, meta, kind, quiet, pc, ns, rlf, ftsq, ftsw>>
 \* a shorter copy replaces the file the constructor saw
 Truncate == /\ pc = "writing" /\ cbytes >= 0
-            /\ \E b \in F..(bytes - 1) : bytes' = b
+            /\ \E b \in F..(bytes - 1) : NearFrame(b) /\ bytes' = b
             /\ pc' = "closed"
             /\ UNCHANGED <<F, meta, kind, quiet, ns, rlf, ftsq, ftsw, cbytes>>
 
